@@ -1019,6 +1019,12 @@ impl SimStream {
         )
     }
     pub fn peer_addr(&self) -> io::Result<SocketAddr> {
+        // as getpeername(2): ENOTCONN once the connection has been reset - also for a connection
+        // that accept() still hands out although its peer aborted it while it sat in the backlog
+        if self.conn().dir(0).reset {
+            count("fault_peer_addr_of_reset_connection");
+            return Err(io::ErrorKind::NotConnected.into());
+        }
         match &self.peer {
             StreamAddr::Tcp(a) => Ok(*a),
             _ => Err(io::ErrorKind::InvalidInput.into()),
@@ -1138,7 +1144,12 @@ impl TcpListener {
     }
     pub async fn accept(&self) -> io::Result<(TcpStream, SocketAddr)> {
         let s = accept_on(&self.st).await?;
-        let a = s.peer_addr()?;
+        // accept(2) reports the address the kernel recorded at connection time, also for a
+        // connection that has been reset since; only a later getpeername(2) fails
+        let a = match &s.peer {
+            StreamAddr::Tcp(a) => *a,
+            _ => return Err(io::ErrorKind::InvalidInput.into()),
+        };
         Ok((s, a))
     }
     pub fn key(&self) -> &str {
